@@ -41,6 +41,12 @@ Theorem C20_parse_display : forall s c, oid_from_str s = Ok c ->
   exists a b rest, c = oid_enc a b rest /\ oid_display c = Ok (Some a :: Some b :: map Some rest).
 Proof. exact oid_parse_display. Qed.
 
+(* whatever the encoder of arcs writes - hence whatever parsing text yields -
+   meets the acceptance rule of taking and skipping (non-empty, last octet
+   ends a sub-identifier), for arcs of any size *)
+Theorem C20_encoded_arcs_accepted : forall a b rest, oid_ok (oid_enc a b rest) = true.
+Proof. exact oid_enc_ok. Qed.
+
 (* larger arcs are reported as too large rather than as a wrong number *)
 Theorem C20_too_large : forall n pos, 4294967296 <= n < 34359738368 ->
   comp_to_u32 (pos, [n / 268435456 + 128; (n / 2097152) mod 128 + 128; (n / 16384) mod 128 + 128;
@@ -66,3 +72,4 @@ Print Assumptions C20_from_str_encodes.
 Print Assumptions C20_arcs_roundtrip.
 Print Assumptions C20_parse_display.
 Print Assumptions C20_too_large.
+Print Assumptions C20_encoded_arcs_accepted.
